@@ -77,6 +77,15 @@ def expr_str(e, strmode):
     raise ValueError(e)
 
 
+def cond_str(e, rnd):
+    """a condition: non-zero is true, however small - the same test may be written scaled
+    down below the three decimals numbers are printed with"""
+    s = expr_str(e, False)
+    if e["t"] in ("lt", "ge", "sub") and rnd.random() < 0.35:
+        return "{{(" + s[2:-2] + ") * " + rnd.choice(["0.0004", "0.00004", "-0.00002"]) + "}}"
+    return s
+
+
 class Conc:
     """One concretisation of an abstract document.  Indented variants put white space
     after elements and, optionally, before the first child of a container (a text node
@@ -239,7 +248,8 @@ class Conc:
             # an attribute local may be given by an expression over the OUTER variable of its own name
             # (x="{{$x * 0 + 1}}": evaluated in the enclosing scope, before the group binds x)
             own = (not self.strmode) and self.rec.get("iv", -1) >= 0 and self.rnd.random() < 0.3
-            a += [f'{x}="{{{{${x} * 0 + {v}}}}}"' if own else f'{x}="{("x" * v) if self.strmode else v}"' for x, v in n["loc"]]
+            a += [f'{x}="{{{{${x} + {v - 100}}}}}"' if v >= 100 else
+                  (f'{x}="{{{{${x} * 0 + {v}}}}}"' if own else f'{x}="{("x" * v) if self.strmode else v}"') for x, v in n["loc"]]
             if n["rd"] != "-" or n["val"] >= 0:
                 # the group's own probe; written after the locals or before them
                 pr = [f'data-v="${n["rd"]}"' if n["rd"] != "-" else f'data-v="{("x" * n["val"]) if self.strmode else n["val"]}"']
@@ -265,7 +275,7 @@ class Conc:
                 # the test reads the width (2) of another shape: value = the literal of the condition
                 test = self.rnd.choice(["{{{{#n{r}~w - 2 + {v}}}}}", "{{{{eq(#n{r}~w, 2) * {v}}}}}", "{{{{gt(#n{r}~h, 1) and {v}}}}}"]).format(r=n["ref"], v=n["cond"]["v"])
                 return f'<if test="{test}">{self.lead}{kids}</if>{nl}'
-            return f'<if test="{expr_str(n["cond"], False)}">{self.lead}{kids}</if>{nl}'
+            return f'<if test="{cond_str(n["cond"], self.rnd)}">{self.lead}{kids}</if>{nl}'
         if k == "loop":
             if n["form"] == "for":
                 sep = self.rnd.choice([", ", ","])
@@ -296,12 +306,13 @@ class Conc:
                     if n["step"] != 1 or self.vscale != 1 or self.rnd.random() < 0.5:
                         a.append(f'step="{fmtnum(n["step"] * self.vscale)}"')
             else:
-                a = [f'{n["form"]}="{expr_str(n["cond"], False)}"']
+                a = [f'{n["form"]}="{cond_str(n["cond"], self.rnd)}"']
             return f'<loop {" ".join(a)}>{self.lead}{kids}</loop>{nl}'
         if k == "reuse":
             # the target may be named as "the previous element" when it is just that
             by_prev = prev_shape == n["href"] and self.rnd.random() < 0.5
-            a = [f'id="r{i}"', 'href="^"' if by_prev else f'href="#n{n["href"]}"'] + [f'{x}="{v}"' for x, v in n["loc"]]
+            a = [f'id="r{i}"', 'href="^"' if by_prev else f'href="#n{n["href"]}"'] + \
+                [f'{x}="{{{{${x} + {v - 100}}}}}"' if v >= 100 else f'{x}="{v}"' for x, v in n["loc"]]
             if n["ref"] > 0:
                 a.append(f'xy="#n{n["ref"]}|h 1"')
             if i % 2 == 0:
